@@ -18,6 +18,7 @@ import (
 
 	"github.com/alephium/wormhole-fork/node/verifh/ethh"
 	"github.com/alephium/wormhole-fork/node/verifh/ev"
+	"github.com/alephium/wormhole-fork/node/verifh/vtime"
 	"github.com/ethereum/go-ethereum/common"
 )
 
@@ -55,6 +56,10 @@ func (s step) String() string {
 		return fmt.Sprintf("hold(%s after %d calls)", s.Method, s.N)
 	case "release1":
 		return fmt.Sprintf("release(%s)", s.Method)
+	case "release-one":
+		return fmt.Sprintf("answer-one(%s)", s.Method)
+	case "elapse":
+		return fmt.Sprintf("elapse(%dms)", s.N)
 	}
 	return s.Op
 }
@@ -138,6 +143,13 @@ func (w *world) apply(s step, hist []step, check bool) {
 		w.d.Quiesce()
 	case "release1":
 		w.c.ReleaseMethod(s.Method)
+		w.d.Quiesce()
+	case "release-one":
+		w.c.ReleaseOne(s.Method)
+		w.d.Quiesce()
+	case "elapse": // virtual time passes; request deadlines (context timeouts) that are due by then expire
+		vtime.Advance(time.Duration(s.N) * time.Millisecond)
+		vtime.FireDue("ctx:")
 		w.d.Quiesce()
 	case "restart":
 		w.d.Restart()
@@ -417,6 +429,23 @@ func bases() []scenario {
 			}
 		}
 	}
+	// slow node: several messages become ready with ONE head and every receipt answer takes 1.5 s of (virtual)
+	// time - each well below the watcher's per-lookup deadline, together above it. Deadlines are on the virtual
+	// clock and expire only when due. All messages stay in their block: all must be forwarded.
+	for _, nmsg := range []int{2, 4, 5} {
+		for _, each := range []uint64{1500, 2600, 4900} {
+			st := []step{}
+			for i := 1; i <= nmsg; i++ {
+				st = append(st, step{Op: "mine", Tx: i, Block: 101, Logs: []ethh.LogSpec{core(uint64(4+i), 1)}})
+			}
+			st = append(st, step{Op: "poll"}, step{Op: "hold", Method: rcpt}, step{Op: "head+", N: 3}, step{Op: "poll"})
+			for i := 0; i < nmsg; i++ {
+				st = append(st, step{Op: "elapse", N: each}, step{Op: "release-one", Method: rcpt})
+			}
+			st = append(st, step{Op: "release1", Method: rcpt}, step{Op: "head+", N: 1}, step{Op: "poll"})
+			out = append(out, scenario{Name: fmt.Sprintf("slow-node/%d-messages-ready-with-one-head/%dms-per-receipt", nmsg, each), WaitConf: true, Level: 1, Steps: st})
+		}
+	}
 	return out
 }
 
@@ -490,7 +519,9 @@ func main() {
 		if bi/sn < 1 {
 			r.Sample(map[string]interface{}{"base": sc.Name, "polling_forwards": res})
 		}
-		if r.Thorough() || bi%3 == 0 {
+		// slow-node scenarios are not edited: an edit can let ONE answer take longer than the watcher's deadline,
+		// which the watcher cannot tell from a node that failed to confirm (outside the statement)
+		if (r.Thorough() || bi%3 == 0) && !strings.HasPrefix(sc.Name, "slow-node/") {
 			for _, h := range edits1(sc.Steps, menu()) {
 				run(sc, h, true)
 			}
